@@ -607,10 +607,10 @@ func ruleL4(c *Ctx) *RuleResult {
 	}
 
 	type site struct {
-		a        fieldAccess
-		must     lockset
-		perCtx   []lockset
-		fresh    bool
+		a      fieldAccess
+		must   lockset
+		perCtx []lockset
+		fresh  bool
 	}
 	collect := func(la *lockAnalysis) map[*types.Var][]site {
 		out := map[*types.Var][]site{}
